@@ -45,6 +45,14 @@ func (s *VerifPartitionSM) Index() *index.Hnsw { return s.p.index }
 func (s *VerifPartitionSM) Len() int           { return s.p.len() }
 func (s *VerifPartitionSM) BytesSize() uint64  { return s.p.bytesSize() }
 
+// VerifPendingCaller registers a notification channel the way a local proposer does before it proposes
+// (notificator.Create(1)) and returns it: a caller of this replica whose own entry has not been applied yet.
+// Entries proposed elsewhere that are applied meanwhile must leave the channel empty.
+func (s *VerifPartitionSM) VerifPendingCaller() <-chan interface{} {
+	c, _ := s.p.notificator.Create(1)
+	return c
+}
+
 // VerifOutcome is what one applied log entry produced.
 type VerifOutcome struct {
 	Notified   bool              // the proposer's channel received an outcome
@@ -175,6 +183,9 @@ func NewVerifDataset(meta pb.Dataset, db *badger.DB, transport *raft.RaftTranspo
 
 func (d *Dataset) VerifPartitionIndex(i int) *index.Hnsw { return d.partitions[i].index }
 func (d *Dataset) VerifPartitionId(i int) uuid.UUID      { return d.partitions[i].id }
+
+// VerifPartitionNodes: the replica set partition i itself works with (as opposed to the dataset descriptor).
+func (d *Dataset) VerifPartitionNodes(i int) []uint64 { return d.partitions[i].nodeIds() }
 func (d *Dataset) VerifLoadRaft(i int, nodeIds []uint64) error {
 	return d.partitions[i].loadRaft(nodeIds)
 }
